@@ -364,7 +364,7 @@ def gen_case(rng, tier, op=None, backend=None):
     if op.startswith("rep_"):
         shape = [rng.randrange(1, 4), rng.randrange(1, 3), rng.randrange(1, 4), rng.choice([2, 3] if op != "rep_points" else [1, 2, 3])]
         n = shape[0] * shape[1] * shape[2] * shape[3]
-        q = rng.choice([0.0, 0.2, 0.4, 0.7, 1.0])
+        q = rng.choice([0.0, 0.1, 0.1, 0.2, 0.2, 0.3, 0.4, 0.7, 1.0])
         uniform = rng.random() < 0.7     # masks uniform over the coordinate axis (as bodies have) or free per element
         vals, masks = [], []
         for _ in range(REP_ARITY[op]):
@@ -387,7 +387,7 @@ def gen_case(rng, tier, op=None, backend=None):
     T = sum(comps)
     F = rng.choice([1, 2, 3, 4, 5]) if op != "interpolate" else rng.choice([2, 3, 4, 5, 6, 7])
     P = rng.choice([1, 1, 2])
-    q = rng.choice([0.0, 0.15, 0.3, 0.5, 0.8, 1.0])
+    q = rng.choice([0.0, 0.1, 0.1, 0.2, 0.2, 0.3, 0.3, 0.5, 0.5, 0.8, 1.0])
     conf = gen_conf(rng, F * P * T, q)
     if rng.random() < 0.2 and T > 1:      # one point missing in every frame / one frame wholly missing
         t = rng.randrange(T)
@@ -468,7 +468,7 @@ def py_round_frames(F, new_fps, fps):
 def model_request(case, fill, impl_out):
     op, backend, prm = case["op"], case["backend"], case.get("params", {})
     code = OPCODE[op]
-    be = 0 if backend == "np" else 1
+    be = {"np": 0, "torch": 1, "tf": 2}[backend]
     shape = list(case["shape"])
     if op.startswith("rep_"):
         ins = []
